@@ -45,6 +45,7 @@ const (
 type ConfigMapLoader struct {
 	client    kubernetes.Interface
 	cache     *configCache
+	cacheMu   sync.RWMutex
 	namespace string
 	name      string
 }
@@ -107,7 +108,7 @@ func (c *ConfigMapLoader) startInformer(
 // ConfigMap or config name in the ConfigMap does not exist, an empty config
 // will be returned.
 func (c *ConfigMapLoader) Load(configName configv1alpha1.ConfigName) (Config, error) {
-	if value, ok := c.cache.Load(configName); ok {
+	if value, ok := c.getCache().Load(configName); ok {
 		return value, nil
 	}
 	return nil, nil
@@ -137,7 +138,21 @@ func (c *ConfigMapLoader) handleUpdate(obj interface{}) {
 		klog.ErrorS(err, "configloader: config unmarshal error", "loader", c.Name())
 		return
 	}
-	c.cache = newConfigMap
+	c.setCache(newConfigMap)
+}
+
+// getCache returns the current cache. The cache is replaced as a whole by the
+// informer's event handler while it is read by other goroutines.
+func (c *ConfigMapLoader) getCache() *configCache {
+	c.cacheMu.RLock()
+	defer c.cacheMu.RUnlock()
+	return c.cache
+}
+
+func (c *ConfigMapLoader) setCache(cache *configCache) {
+	c.cacheMu.Lock()
+	defer c.cacheMu.Unlock()
+	c.cache = cache
 }
 
 func (c *ConfigMapLoader) unmarshalConfigMap(data map[string]string) (*configCache, error) {
